@@ -52,7 +52,7 @@ func (e *Engine) flow(u *FuncUnit) *Flow {
 		var at *FactSet
 		pf.walk(func(n ast.Node, fs *FactSet, stmt ast.Node, b *cfg.Block) {
 			if n == ast.Node(u.Lit) && at == nil {
-				at = fs
+				at = fs.clone()
 			}
 		})
 		if at != nil {
@@ -796,7 +796,7 @@ func (e *Engine) callSiteEntry(u *FuncUnit) func(fl *Flow) []*Fact {
 		var at *FactSet
 		cfl.walk(func(n ast.Node, fs *FactSet, stmt ast.Node, b *cfg.Block) {
 			if n == ast.Node(s.call) && at == nil {
-				at = fs
+				at = fs.clone()
 			}
 		})
 		if at == nil {
